@@ -40,7 +40,8 @@ NP_MODEL = {
     "concatenate": lambda arrs, axis=0: pt.concatenate(list(arrs), axis),
     "roll": lambda a, shift, axis=None: pt.roll(a, shift, axis),
     "transpose": lambda a, axes=None: pt.transpose(a, axes),
-    "reshape": lambda a, shape: pt.reshape(a, shape),
+    # NumPy: order defaults to "C"
+    "reshape": lambda a, shape, order="C": pt.reshape(a, shape, order=order),
     "einsum": lambda spec, *args: pt.einsum(spec, *args),
     "broadcast_to": lambda a, shape: pt.broadcast_to(a, tuple(shape)),
     "where": pt.where,
@@ -202,9 +203,10 @@ def programs(tier):
     # reshape / broadcast_to / full need integer shapes in this target
     for old, new in [((2, 3), (3, 2)), ((6,), (2, 3)), ((2, 1, 3), (6,)),
                      ((4,), (2, 2))]:
-        for order in ("C",):
-            P[f"reshape;{old}->{new}"] = lambda h, old=old, new=new: \
-                pt.reshape(ph(h, "a", len(old), list(old)), new)
+        for order in ("C", "F"):
+            P[f"reshape;{old}->{new};{order}"] = \
+                lambda h, old=old, new=new, order=order: \
+                pt.reshape(ph(h, "a", len(old), list(old)), new, order=order)
     for ins, o in [(["ij", "j"], "i"), (["ij", "jk"], "ik"), (["ij"], "ji"),
                    (["ii"], "i"), (["i", "j"], "ji"), (["ij", "ij"], ""),
                    (["ij", "jk"], "ki"), (["i", "i", "i"], "i")]:
